@@ -1,4 +1,5 @@
 import PvModel.Props.C09
+import PvModel.Props.C09Sequence
 #print axioms Pv.C09_lazy
 #print axioms Pv.C09_take_mono
 #print axioms Pv.C09_take_prefix
@@ -7,3 +8,5 @@ import PvModel.Props.C09
 #print axioms Pv.C09_order_independent_tree
 #print axioms Pv.C09_next_functional
 #print axioms Pv.C09_order_independent_fd
+#print axioms Pv.C09_sequence_order_free
+#print axioms Pv.C09_answers_order_free
